@@ -176,7 +176,22 @@ func (o *ObjectSchema) unserializeToStruct(rawData map[string]any) (any, error) 
 	for key, value := range rawData {
 		val := value
 		elem := reflectedValue.Elem()
-		field := elem.FieldByIndex(o.fieldCache[key].Index)
+		// The field may be promoted from embedded struct pointers, which are allocated on the way down
+		// (reflect's FieldByIndex panics on a nil one).
+		field := elem
+		for i, fieldIndex := range o.fieldCache[key].Index {
+			if i > 0 && field.Kind() == reflect.Pointer {
+				if field.IsNil() && field.CanSet() {
+					field.Set(reflect.New(field.Type().Elem()))
+				}
+				if field.IsNil() {
+					field = reflect.Value{}
+					break
+				}
+				field = field.Elem()
+			}
+			field = field.Field(fieldIndex)
+		}
 		f := field
 		v := reflect.ValueOf(val)
 		var recoveredError error
@@ -294,9 +309,13 @@ func (o *ObjectSchema) getFieldReflection(propertyID string, v reflect.Value, pr
 	field := o.fieldCache[propertyID]
 	var val reflect.Value
 	if v.Kind() == reflect.Pointer {
-		val = v.Elem().FieldByName(field.Name)
+		val = fieldByIndex(v.Elem(), field.Index)
 	} else {
-		val = v.FieldByName(field.Name)
+		val = fieldByIndex(v, field.Index)
+	}
+	if !val.IsValid() {
+		// Promoted from an embedded struct pointer that is nil: nothing is set.
+		return nil
 	}
 	if val.Kind() == reflect.Pointer {
 		if val.IsNil() {
@@ -310,6 +329,21 @@ func (o *ObjectSchema) getFieldReflection(propertyID string, v reflect.Value, pr
 		return nil
 	}
 	return &val
+}
+
+// fieldByIndex is reflect.Value.FieldByIndex for fields that may be promoted through embedded struct pointers:
+// where FieldByIndex (and FieldByName) panic on a nil embedded pointer, it returns the zero Value.
+func fieldByIndex(v reflect.Value, index []int) reflect.Value {
+	for i, fieldIndex := range index {
+		if i > 0 && v.Kind() == reflect.Pointer {
+			if v.IsNil() {
+				return reflect.Value{}
+			}
+			v = v.Elem()
+		}
+		v = v.Field(fieldIndex)
+	}
+	return v
 }
 
 func (o *ObjectSchema) Serialize(data any) (any, error) {
